@@ -16,7 +16,7 @@
 #define TK 0      // 0 CallbackList  1 EventDispatcher  2 EventQueue  3 HeterEventDispatcher
 #endif
 #ifndef RK
-#define RK 0      // 0 CounterRemover  1 ConditionalRemover (condition takes the arguments)  2 (condition takes no arguments)  3 (condition callable both ways)  4 (condition object with its own state)
+#define RK 0      // 0 CounterRemover  1 ConditionalRemover (condition takes the arguments)  2 (condition takes no arguments)  3 (condition callable both ways)  4 (condition object with its own state)  5 (condition returns a mask 0 / 0x40 instead of a bool)
 #endif
 #define EV 4
 
@@ -148,6 +148,9 @@ extern "C" void harness()
 		// callable both with and without the trigger's arguments: it must be given them
 		struct BothWays { bool operator()() const { vf_assert(false, 155); return false; } bool operator()(uint32_t a) const { return cond_eval(true, a); } };
 		BothWays cond;
+#elif RK == 5
+		// a condition that returns a MASK, not a bool: "holds" = converts to true (0x40, never 1)
+		auto cond = [](uint32_t a) -> uint32_t { return cond_eval(true, a) ? 0x40u : 0u; };
 #elif RK == 4
 		// a condition that keeps its own state (a counting functor): every evaluation must be made on the ONE stored condition object
 		struct Stateful { int mine = 0; bool operator()(uint32_t a) { ++mine; vf_assert(mine == g->ceval + 1, 156); return cond_eval(true, a); } };
